@@ -63,6 +63,36 @@ static CONSUMER: Mutex<Option<Consumer>> = Mutex::new(None);
 static HANDLE: Mutex<Option<Handle>> = Mutex::new(None);
 static NEXT_ID: AtomicI32 = AtomicI32::new(1);
 
+/// every byte of the record after si_signo / si_errno carries a pattern derived from the delivery's id
+/// and the offset: a record that is handed out must be a copy of the *whole* siginfo_t of its delivery
+fn pattern(id: i32, off: usize) -> u8 {
+    (id as usize).wrapping_mul(131).wrapping_add(off.wrapping_mul(7)).wrapping_add(13) as u8
+}
+
+fn fill(info: &mut libc::siginfo_t, sig: i32, id: i32) {
+    let n = std::mem::size_of::<libc::siginfo_t>();
+    let p = info as *mut libc::siginfo_t as *mut u8;
+    for off in 8..n {
+        unsafe { *p.add(off) = pattern(id, off) };
+    }
+    info.si_signo = sig;
+    info.si_errno = id;
+}
+
+/// first byte at which a yielded record differs from what its delivery carried
+fn corrupt_at(info: &libc::siginfo_t) -> Option<usize> {
+    let n = std::mem::size_of::<libc::siginfo_t>();
+    let p = info as *const libc::siginfo_t as *const u8;
+    (8..n).find(|&off| unsafe { *p.add(off) } != pattern(info.si_errno, off))
+}
+
+fn yield_line(info: &libc::siginfo_t) -> String {
+    match corrupt_at(info) {
+        None => format!("yield {} {}", info.si_signo, info.si_errno),
+        Some(off) => format!("yield {} {} CORRUPT byte {}", info.si_signo, info.si_errno, off),
+    }
+}
+
 fn do_op(text: &str) {
     let w: Vec<&str> = text.split_whitespace().collect();
     match w.as_slice() {
@@ -71,8 +101,7 @@ fn do_op(text: &str) {
             let id = NEXT_ID.fetch_add(1, Ordering::SeqCst);
             push_log(format!("call deliver {} {}", sig, id));
             let mut info: libc::siginfo_t = unsafe { std::mem::zeroed() };
-            info.si_signo = sig;
-            info.si_errno = id;
+            fill(&mut info, sig, id);
             IN_DELIVERY.with(|x| x.set(x.get() + 1));
             unsafe { verif::deliver(sig, &mut info, std::ptr::null_mut()) };
             IN_DELIVERY.with(|x| x.set(x.get() - 1));
@@ -106,7 +135,7 @@ fn do_op(text: &str) {
                     }
                 };
                 for info in it {
-                    push_log(format!("yield {} {}", info.si_signo, info.si_errno));
+                    push_log(yield_line(&info));
                 }
             }
             *CONSUMER.lock().unwrap() = Some(c);
@@ -117,7 +146,7 @@ fn do_op(text: &str) {
             let mut c = CONSUMER.lock().unwrap().take().unwrap();
             if let Consumer::B(ref mut it) = c {
                 match it.poll_signal(&mut cb_nonblocking) {
-                    PollResult::Signal(i) => { push_log(format!("yield {} {}", i.si_signo, i.si_errno)); push_log("ret poll signal".into()); }
+                    PollResult::Signal(i) => { push_log(yield_line(&i)); push_log("ret poll signal".into()); }
                     PollResult::Pending => push_log("ret poll pending".into()),
                     PollResult::Closed => push_log("ret poll closed".into()),
                     PollResult::Err(e) => push_log(format!("ret poll err {}", e)),
@@ -131,7 +160,7 @@ fn do_op(text: &str) {
             if let Consumer::B(ref mut it) = c {
                 loop {
                     match it.poll_signal(&mut cb_blocking) {
-                        PollResult::Signal(i) => push_log(format!("yield {} {}", i.si_signo, i.si_errno)),
+                        PollResult::Signal(i) => push_log(yield_line(&i)),
                         PollResult::Closed => break,
                         PollResult::Pending => continue,
                         PollResult::Err(e) => panic!("{}", e),
@@ -158,11 +187,14 @@ pub fn main() -> i32 {
     let mut maxsteps = 20000usize;
     // `delay <tid> <n>`: thread <tid> is not scheduled during the first <n> steps (unless nothing else can run)
     let mut delays: Vec<(usize, usize)> = Vec::new();
+    // `setup trace`: print every shim event, not just the operation-level lines
+    let mut full_trace = false;
     for l in read_lines() {
         let w: Vec<&str> = l.split_whitespace().collect();
         match w.as_slice() {
             ["setup", "watch", rest @ ..] => watch.extend(rest.iter().map(|x| x.parse::<i32>().unwrap())),
             ["setup", "style", s] => style = s.to_string(),
+            ["setup", "trace"] => full_trace = true,
             ["seed", n] => seed = n.parse().unwrap(),
             ["maxsteps", n] => maxsteps = n.parse().unwrap(),
             ["delay", t, n] => delays.push((t[1..].parse().unwrap(), n.parse().unwrap())),
@@ -230,7 +262,7 @@ pub fn main() -> i32 {
     for l in g.log.iter() {
         let body = l.splitn(2, ' ').nth(1).unwrap_or("");
         let body = body.strip_prefix("H ").unwrap_or(body);
-        if body.starts_with("call ") || body.starts_with("ret ") || body.starts_with("yield ") || body.starts_with("cb ") {
+        if full_trace || body.starts_with("call ") || body.starts_with("ret ") || body.starts_with("yield ") || body.starts_with("cb ") {
             out.line(l);
         }
     }
